@@ -24,7 +24,7 @@ LEVEL_TEXT = ('static analysis: (D1) every public estimator of cnvlib/descriptiv
               "percentile, sum, density or estimator (ties would count once) (the two biweights' max(c*mad, epsilon) mixes a degree-1 value with "
               "an absolute constant: that is the property's own exception and leaves only their scale typing undecided); (D5) the same bodies "
               'interpreted on the uniform vector (k, k, k) with exact arithmetic in k: every scale estimator evaluates to 0 and every location '
-              'estimator to k, and a library call whose precondition constant data violates (gaussian_kde needs a non-singular covariance) is a '
+              'estimator to k (an order comparison on k that generic k cannot decide is decided at the representative constants k = 7 and k = -7), and a library call whose precondition constant data violates (gaussian_kde needs a non-singular covariance) is a '
               "finding; the wrappers' contract (NaN stripped, no data -> NaN, one value -> the value / 0) is evaluated the same way; (D5b) on "
               'exactly symmetric data the biweight midvariance is the documented 1.4826 * MAD. (D3d) savgol interpreted on constant signals of '
               "2..40 values, weighted or not, five parameter sets, with scipy's stated preconditions (polyorder < window_length <= len(signal)) "
